@@ -82,6 +82,7 @@ def main():
     finally:
         sh("git -C /repo worktree remove --force %s" % wt)
         shutil.rmtree(wt, ignore_errors=True)
+        shutil.rmtree(os.path.join("/tmp/verif_scratch", wt.strip("/").replace("/", "_")), ignore_errors=True)   # evidence / replays of the scratch run
         d = os.path.join(VERIF, "seeded", sid)
         os.makedirs(d, exist_ok=True)
         shutil.copy(patch, os.path.join(d, "patch.diff"))
